@@ -71,6 +71,18 @@ func (s *source) NewSourceReader(connectors.SourceReaderHooks) connectors.Source
 	return &reader{src: s, pos: map[string]int{}}
 }
 
+type cursor struct {
+	Pos   int
+	Round int // which splitter start produced the assignment (harness bookkeeping)
+}
+
+// Round is one splitter start: the checkpoint it resumed from and what the readers applied.
+type Round struct {
+	CkptID  uint64
+	Pos     map[string]int   // positions found in the restored checkpoint
+	Applied map[string][]int // split -> positions at which readers took it over
+}
+
 type splitState struct {
 	Split string
 	Pos   int
@@ -95,9 +107,10 @@ func (s *splitter) Start(ck *snapshotpb.SourceCheckpoint) error {
 		}
 	}
 	s.src.w.noteRestoredSplits(seen)
+	round := s.src.w.newRound(ck.GetCheckpointId(), pos)
 	as := map[string][]*workerpb.SourceSplit{}
 	for i, id := range s.src.ids {
-		c, _ := json.Marshal(pos[id])
+		c, _ := json.Marshal(cursor{Pos: pos[id], Round: round})
 		r := s.runners[i%len(s.runners)]
 		as[r] = append(as[r], &workerpb.SourceSplit{SplitId: id, Cursor: c})
 	}
@@ -120,11 +133,11 @@ func (r *reader) AssignSplits(sp []*workerpb.SourceSplit) error {
 	r.mu.Lock()
 	defer r.mu.Unlock()
 	for _, s := range sp {
-		var p int
-		json.Unmarshal(s.Cursor, &p)
+		var c cursor
+		json.Unmarshal(s.Cursor, &c)
 		r.splits = append(r.splits, s.SplitId)
-		r.pos[s.SplitId] = p
-		r.src.w.noteAssigned(s.SplitId, p)
+		r.pos[s.SplitId] = c.Pos
+		r.src.w.noteAssigned(s.SplitId, c.Pos, c.Round)
 	}
 	return nil
 }
@@ -299,6 +312,7 @@ type World struct {
 	SRAcks       []*jobpb.SourceRunnerCheckpointCompleteRequest
 	OpAcks       []*snapshotpb.OperatorCheckpoint
 	Assigned     []string // "split@pos" in assignment order
+	Rounds       []*Round
 	Deploys      int
 	Assembly     []string // operator ids of the latest deployment, in range order
 	MaxKeyCalls  int      // most KeyEventBatch calls in flight at once
@@ -373,10 +387,21 @@ type Delivered struct {
 	WM   int64
 }
 
-func (w *World) noteAssigned(split string, pos int) {
+func (w *World) noteAssigned(split string, pos, round int) {
 	w.mu.Lock()
 	w.Assigned = append(w.Assigned, fmt.Sprintf("%s@%d", split, pos))
+	if round >= 1 && round <= len(w.Rounds) {
+		r := w.Rounds[round-1]
+		r.Applied[split] = append(r.Applied[split], pos)
+	}
 	w.mu.Unlock()
+}
+
+func (w *World) newRound(ckpt uint64, pos map[string]int) int {
+	w.mu.Lock()
+	defer w.mu.Unlock()
+	w.Rounds = append(w.Rounds, &Round{CkptID: ckpt, Pos: pos, Applied: map[string][]int{}})
+	return len(w.Rounds)
 }
 
 func (w *World) noteRestoredSplits(seen map[string]int) {
